@@ -646,6 +646,44 @@ func (c *c02ctx) r3Typestate() {
 				bad, what = call.Pos(), id.name
 			}
 		})
+		// the value-length test is made against the PADDED length: Next() advances by 8+paddedLen()
+		padOK, lenOnly := false, token.NoPos
+		allInstrs(vf, func(in ssa.Instruction) {
+			bo, ok := in.(*ssa.BinOp)
+			if !ok || (bo.Op != token.LSS && bo.Op != token.GEQ && bo.Op != token.GTR && bo.Op != token.LEQ) {
+				return
+			}
+			var lenSide, other ssa.Value
+			if y, isLen := lenOperand(bo.X); isLen {
+				lenSide, other = y, bo.Y
+			} else if y, isLen := lenOperand(bo.Y); isLen {
+				lenSide, other = y, bo.X
+			}
+			if lenSide == nil {
+				return
+			}
+			// len(buf[8:]) only (a slice of the buffer from offset 8)
+			sl, ok := lenSide.(*ssa.Slice)
+			if !ok {
+				return
+			}
+			if k, ok := constIntVal(sl.Low); !ok || k != 8 {
+				return
+			}
+			if c, ok := other.(*ssa.Call); ok {
+				switch callID(&c.Call).name {
+				case "paddedLen":
+					padOK = true
+				case "len":
+					lenOnly = bo.Pos()
+				}
+			}
+		})
+		if lenOnly.IsValid() && !padOK {
+			r.Bad("C02.R3", "ttlv.ttlvReader.validate/padded-extent", lenOnly, "validate() compares the bytes available with the declared length, not with the padded length: an item whose padding is missing at the end of its enclosing structure passes, and Next() — which advances by 8+paddedLen() — slices beyond the buffer (panic in the read loop)")
+		} else if padOK {
+			r.OK("C02.R3", "ttlv.ttlvReader.validate/padded-extent", vf.Pos(), "the bytes available are compared with paddedLen()")
+		}
 		switch {
 		case bad.IsValid():
 			r.Bad("C02.R3", "ttlv.ttlvReader.validate/header-first", bad, "validate() calls %s() on its own reader before it has established len(buf) >= 8: the accessor indexes the header beyond an empty-buffer test only, so a remainder of 1-7 bytes (a structure whose declared length exceeds its children by a few bytes) panics with index out of range", what)
